@@ -93,6 +93,11 @@ func extractSinglePart(re *syntax.Regexp) *charClassPart {
 	var charClass *syntax.Regexp
 	var minMatch, maxMatch int
 
+	// Lazy repetitions prefer the shortest match; the searchers are greedy only.
+	if re.Op != syntax.OpCharClass && re.Flags&syntax.NonGreedy != 0 {
+		return nil
+	}
+
 	switch re.Op {
 	case syntax.OpPlus:
 		// cc+ → minMatch=1, maxMatch=unlimited (0 means unlimited)
@@ -151,7 +156,7 @@ func extractSinglePart(re *syntax.Regexp) *charClassPart {
 	for i := 0; i < len(runes); i += 2 {
 		lo, hi := runes[i], runes[i+1]
 		// Only support ASCII for now
-		if lo > 255 || hi > 255 {
+		if lo > 127 || hi > 127 {
 			return nil
 		}
 		for r := lo; r <= hi; r++ {
@@ -271,6 +276,21 @@ func IsCompositeCharClassPattern(re *syntax.Regexp) bool {
 	return true
 }
 
+// isASCIICharClass reports whether re is a character class with ASCII members only.
+// The searcher works on bytes: a non-ASCII member is a multi-byte UTF-8 sequence,
+// not the byte with the code point's value.
+func isASCIICharClass(re *syntax.Regexp) bool {
+	if re == nil || re.Op != syntax.OpCharClass {
+		return false
+	}
+	for _, r := range re.Rune {
+		if r > 127 {
+			return false
+		}
+	}
+	return true
+}
+
 // isValidCompositePart checks if a sub-expression is valid for composite searcher.
 func isValidCompositePart(re *syntax.Regexp) bool {
 	if re == nil {
@@ -278,23 +298,20 @@ func isValidCompositePart(re *syntax.Regexp) bool {
 	}
 
 	switch re.Op {
-	case syntax.OpPlus, syntax.OpStar, syntax.OpQuest:
+	case syntax.OpPlus, syntax.OpStar, syntax.OpQuest, syntax.OpRepeat:
 		// Must have exactly one sub which is a char class
 		if len(re.Sub) != 1 {
 			return false
 		}
-		return re.Sub[0].Op == syntax.OpCharClass
-
-	case syntax.OpRepeat:
-		// Must have exactly one sub which is a char class
-		if len(re.Sub) != 1 {
+		// Lazy repetitions prefer the shortest match; the searcher is greedy only.
+		if re.Flags&syntax.NonGreedy != 0 {
 			return false
 		}
-		return re.Sub[0].Op == syntax.OpCharClass
+		return isASCIICharClass(re.Sub[0])
 
 	case syntax.OpCharClass:
 		// Bare char class (implicit {1,1})
-		return true
+		return isASCIICharClass(re)
 
 	default:
 		return false
